@@ -415,7 +415,7 @@ class Gen:
                             old["indexes"].append(ix)
                 else:
                     tabs[c].append(t); ops += o
-            elif k < 0.985:
+            elif k < 0.99:
                 t = r.choice(tabs[c])
                 kattr = [a for a, ty in [t["schema"]["hash"]] + ([t["schema"]["range"]] if t["schema"]["range"] else []) if ty != "S"]
                 if kattr and r.random() < 0.5:
@@ -424,6 +424,15 @@ class Gen:
                     ops.append(dict(op="add_index", client=c, table=t["name"], index="byk", hash="g", range=kattr[0]))
                     ops.append(dict(op="describe_table", client=c, table=t["name"]))
                     ops += self.data_op(c, [t], len(ops))
+                elif r.random() < 0.4:
+                    # the definitions arrive in a request of their own; the index that relies on them comes later and
+                    # does not repeat them (or names an attribute nobody declared)
+                    an = r.choice(["fd", "fd", "w"])
+                    ops.append(dict(op="update_table", client=c, table=t["name"], attrs=[dict(name="fd", type="S")]))
+                    if r.random() < 0.5: ops.append(dict(op="describe_table", client=c, table=t["name"]))
+                    ops.append(dict(op="update_table", client=c, table=t["name"], create=dict(name="fix", hash=dict(name=an), throughput=True)))
+                    ops.append(dict(op="describe_table", client=c, table=t["name"]))
+                    ops.append(dict(op="scan", client=c, table=t["name"], index="fix"))
                 elif r.random() < 0.5:
                     ops.append(dict(op="update_table", client=c, table=t["name"], attrs=[dict(name="f", type="S")],
                                     create=dict(name="fix", hash=dict(name="f"), throughput=r.random() < 0.7)))
@@ -706,8 +715,26 @@ class ExprGen(Gen):
             e = r.choice([e + " " + later, later + " " + e])
         return dict(op="lang_update", expr=e, item=it, names={}, values=vals)
 
+    def dotted_probe(self):
+        """a top-level attribute whose own name contains a dot, addressed through a name placeholder: every action reads
+        and writes THAT attribute (the item has no map the dotted name could be read as a path into)"""
+        r = self.r
+        it = {k: v for k, v in self.expr_item().items() if k not in ("ver", "meta", "tags")}
+        dn = r.choice(["ver.count", "meta.version", "tags.all"])
+        kind = r.choice(["N", "N", "SS", "S"])
+        if r.random() < 0.85: it[dn] = self.typed_value(kind)
+        names = {"#c": dn}
+        e, vals = r.choice([
+            ("ADD #c :one", {":one": N("1")}), ("SET #c = if_not_exists(#c, :zero)", {":zero": N("0")}), ("SET seen = #c", {}),
+            ("DELETE #c :a", {":a": {"SS": ["a"]}}), ("ADD #c :a", {":a": {"SS": ["a", "zz"]}}), ("REMOVE #c", {}), ("SET #c = :v", {":v": S("new")}),
+            ("SET #c = #c + :one", {":one": N("1")}), ("SET seen = if_not_exists(#c, :zero), #c = :zero", {":zero": N("0")}),
+            ("SET l2 = list_append(:l, :l), seen = #c", {":l": {"L": [S("x")]}})])
+        return dict(op="lang_update", expr=e, item=it, names=names, values=vals)
+
     def update_case(self):
         r = self.r
+        if r.random() < 0.04:
+            return self.dotted_probe()
         if r.random() < 0.12:
             return self.alias_probe()
         if r.random() < 0.06:
